@@ -865,12 +865,24 @@ def cases_C05(ctx):
     for _ in range(ctx.n(700, 7000)):
         n = rng.randint(1, 7)
         fr = good_frames(ctx, n)
+        # static messages are often repeated verbatim: repeat some frames back to back
+        if rng.random() < 0.4:
+            for i in range(1, n):
+                if rng.random() < 0.5:
+                    fr[i] = fr[i - 1]
         D = sorted(rng.sample(range(n), rng.randint(0, n)))
         parts = []
         kinds = []
         for i, f in enumerate(fr):
             if i in D:
-                d, kind = gens.damage(rng, f, rng.choice(["1", "2", "3", "burst"]))
+                if rng.random() < 0.3:
+                    # damage confined to the three checksum bytes
+                    x = bytearray(f)
+                    for b in rng.sample(range(24), rng.choice([1, 2, 3])):
+                        x[len(f) - 3 + b // 8] ^= 0x80 >> (b % 8)
+                    d, kind = bytes(x), "crc"
+                else:
+                    d, kind = gens.damage(rng, f, rng.choice(["1", "2", "3", "burst"]))
                 parts.append(d)
                 kinds.append(kind)
             else:
